@@ -353,7 +353,10 @@ def read_ndjson(path):
         for line in f:
             line = line.strip()
             if line:
-                out.append(json.loads(line))
+                try:
+                    out.append(json.loads(line))
+                except ValueError:
+                    pass   # truncated last line of a driver that died
     return out
 
 
